@@ -28,6 +28,7 @@ type World struct {
 	s    *simrt.Sim
 	a    *harness.Args
 	prop string
+	hang string // C01: the run did not quiesce (judged by settleHang)
 	sc   *Scenario
 	fs   *simfs.FS
 	tgt  *actors.ScriptedTarget
@@ -356,7 +357,9 @@ func Run(s *simrt.Sim, a *harness.Args, r *harness.Result) {
 		}
 	}
 
+	nv := len(s.Violations())
 	w.oracles()
+	w.settleHang(nv)
 
 	r.Shape = sc.Shape()
 	st := s.Stats()
@@ -385,9 +388,26 @@ func (w *World) violateHang(detail string) {
 		w.s.Violate(key, "%s", detail)
 	case "C02":
 		w.s.Violate("C02/recovery-hang", "%s", detail)
+	case "C01":
+		// judged after the conservation oracle: a queue that stopped making
+		// progress with recipients still pending is a violation, not a harness problem
+		w.hang = detail
 	default:
 		simrt.Harnessf("run did not quiesce: %s", detail)
 	}
+}
+
+// settleHang is called after the oracles: a hang is reported as C01/stuck if
+// (and only if) the oracles found recipients without an outcome.
+func (w *World) settleHang(before int) {
+	if w.hang == "" {
+		return
+	}
+	if len(w.s.Violations()) > before {
+		w.s.Violate("C01/stuck", "the queue stopped making progress with recipients pending: %s", w.hang)
+		return
+	}
+	simrt.Harnessf("run did not quiesce: %s", w.hang)
 }
 
 // closeLive closes the current queue from a task and waits for it.
@@ -405,6 +425,8 @@ func (w *World) closeLive() {
 	if !w.closeDone[n] || res != simrt.Progress {
 		if w.prop == "C12" {
 			w.violateHang("final Close did not return; parked=" + strings.Join(w.s.ParkedKeys(), ","))
+		} else if w.prop == "C01" {
+			w.violateHang(fmt.Sprintf("final Close did not return; parked=%v", w.s.ParkedKeys()))
 		} else if len(w.s.Violations()) == 0 {
 			simrt.Harnessf("final Close did not return; parked=%v", w.s.ParkedKeys())
 		}
